@@ -141,6 +141,20 @@ Definition run_buildhdr (args : list (list byte)) : list byte :=
   | _ => s2b "BADCASE"
   end.
 
+(* COUNTS q a n x opt: a packet with that many minimal entries per section (root-owned, 5-byte questions, 15-byte A records) and
+   optionally EDNS data, written plain and compressed: the 12 header bytes and the total length of each output *)
+Definition run_counts (args : list (list byte)) : list byte :=
+  match map hex_to_N args with
+  | [Some q; Some a; Some n; Some x; Some o] =>
+    let qq := {| qname := []; q_type := QT (TY M_A); q_class := QC IN; unicast := false |} in
+    let r := {| rname := []; rclass := IN; rttl := 0; rdata_of := RD M_A [V_int 0]; rcf := false |} in
+    let p := {| hdr := new_query 1; popt := if o =? 0 then None else Some {| o_udp := 512; o_version := 0; o_codes := [] |};
+                qs := repeat qq (N.to_nat q); ans := repeat r (N.to_nat a); nss := repeat r (N.to_nat n); adds := repeat r (N.to_nat x) |} in
+    let show := fun (w : outcome (list byte)) => out_line w (fun b => unwords [bytes_to_hex (firstn 12 b); N_to_hex (len b)]) in
+    unwords [show (write_packet p); s2b "|"; show (write_packet_compressed p)]
+  | _ => s2b "BADCASE"
+  end.
+
 (* HDRMOD word op rc: parse a header with this flags word, replace opcode and response code through the accessors, serialise *)
 Definition run_hdrmod (args : list (list byte)) : list byte :=
   match map hex_to_N args with
@@ -236,7 +250,7 @@ Definition overwrite (storage : list byte) (start : N) (msg : list byte) : list 
   pre ++ pad ++ msg ++ skipn (N.to_nat (start + len msg)) storage.
 Definition write_into (kind : list byte) (start : N) (storage msg : list byte) : outcome (list byte * N) :=
   if tok_eqb kind "V" then Ok (storage ++ msg, len storage + len msg)
-  else if tok_eqb kind "G" || tok_eqb kind "Q" then Ok (overwrite storage start msg, start + len msg)   (* Q: a growable writer whose write() accepts a few bytes per call *)
+  else if tok_eqb kind "G" || tok_eqb kind "Q" || tok_eqb kind "B" then Ok (overwrite storage start msg, start + len msg)   (* Q: a growable writer whose write() accepts a few bytes per call; B: a BufWriter over a growable cursor, H: over a fixed one *)
   else if start + len msg <=? len storage then Ok (overwrite storage start msg, start + len msg)
   else Err FailedToWrite.
 Definition run_buildw (args : list (list byte)) : list byte :=
@@ -741,5 +755,7 @@ Definition run_line (line : list byte) : list byte :=
     else if tok_eqb cmd "HDRMOD" then run_hdrmod args
     else if tok_eqb cmd "PEEKF" then run_peekf args
     else if tok_eqb cmd "SHOW" then run_show args
+    else if tok_eqb cmd "COUNTS" then run_counts args
+    else if tok_eqb cmd "SOCK" then s2b "SOCK"     (* real sockets: nothing to compute; C14_responder_total says the loop body returns *)
     else s2b "BADCASE"
   end.
